@@ -21,6 +21,7 @@ async fn run() -> Result<(), String> {
     let mut router = lsp::server::Server::new_router(ClientSocket::new_closed());
     let open: AnyNotification = serde_json::from_value(json!({"method": "textDocument/didOpen", "params": {"textDocument": {"uri": uri(&root), "languageId": "tablegen", "version": 1, "text": root_text}}})).unwrap();
     let _ = router.notify(open);
+    tokio::time::sleep(Duration::from_millis(500)).await;
     // definition of `Base` in `def d : Base;` (line 1, character 8)
     let req: AnyRequest = serde_json::from_value(json!({"id": 1, "method": "textDocument/definition", "params": {"textDocument": {"uri": uri(&root)}, "position": {"line": 1, "character": 8}}})).unwrap();
     let resp = tokio::time::timeout(Duration::from_secs(20), router.call(req)).await.map_err(|_| "definition timed out".to_string())?.map_err(|e| format!("{e:?}"))?;
@@ -49,6 +50,7 @@ async fn run() -> Result<(), String> {
 
 #[test]
 fn definition_in_included_file_uses_that_files_coordinates() {
+    std::thread::spawn(|| { std::thread::sleep(Duration::from_secs(60)); eprintln!("WITNESS the server did not answer within 60 s (blocked main loop)"); std::process::exit(3); });
     let rt = tokio::runtime::Builder::new_multi_thread().enable_all().build().unwrap();
     let r = rt.block_on(run());
     if let Err(e) = r { panic!("WITNESS {e}"); }
